@@ -571,6 +571,58 @@ func (v *VerifCtl) WeightProbe() VWeightProbe {
 	return out
 }
 
+// WeightProbePending: a VirtualServer of this controller with splits is being served; an edit moves it to another
+// class (the update waits in the queue, as it does while the worker is busy), and a weight-only update of the now
+// foreign object arrives before that task is processed.  The fast path runs at event time: it must not store the
+// foreign object, and must not record an Event or write a status on it.  A panic inside the handler counts as reached.
+func (v *VerifCtl) WeightProbePending() VWeightProbe {
+	own, cur1, cur2 := verifSplitVS("nginx", 50, 50, 1), verifSplitVS("other", 50, 50, 2), verifSplitVS("other", 70, 30, 3)
+	for _, x := range []*conf_v1.VirtualServer{own, cur1, cur2} {
+		x.Name, x.UID, x.Spec.Host = "pending", "uid-wp-pending", "wpp.example.com"
+	}
+	nsi := v.nsi("wp")
+	sync := func() {
+		q := v.lbc.syncQueue.queue
+		for q.Len() > 0 {
+			it, _ := q.Get()
+			q.Done(it)
+			v.lbc.sync(it.(task))
+		}
+	}
+	v.drainQueue()
+	v.lbc.weightChangesDynamicReload = true
+	_ = nsi.virtualServerLister.Add(own)
+	createVirtualServerHandlers(v.lbc).AddFunc(own)
+	sync()
+	_ = nsi.virtualServerLister.Add(cur1)
+	createVirtualServerHandlers(v.lbc).UpdateFunc(own, cur1)
+	v.rec.take()
+	v.kube.ClearActions()
+	v.conf.ClearActions()
+	_ = nsi.virtualServerLister.Add(cur2)
+	panicked := false
+	func() {
+		defer func() {
+			if recover() != nil {
+				panicked = true
+			}
+		}()
+		createVirtualServerHandlers(v.lbc).UpdateFunc(cur1, cur2)
+	}()
+	c := v.lbc.configuration
+	c.lock.RLock()
+	st, ok := c.virtualServers["wp/pending"]
+	stored := ok && st.Spec.IngressClass != "nginx"
+	c.lock.RUnlock()
+	out := VWeightProbe{Stored: stored || panicked, Events: v.rec.take(), Writes: v.statusWrites()}
+	v.lbc.weightChangesDynamicReload = false
+	sync()
+	_ = nsi.virtualServerLister.Delete(cur2)
+	v.lbc.sync(task{Kind: virtualserver, Key: "wp/pending"})
+	v.rec.take()
+	return out
+}
+
 // writeBack plays the watch for the status writes of a sync: the informer store gets a NEW object that carries
 // the written status (the real informer replaces the cached object; whoever kept the old pointer keeps the old
 // status).  The resulting update event changes nothing but the status and is not delivered to the handlers.
@@ -608,7 +660,7 @@ func (v *VerifCtl) writeBack(writes []VStatusWrite) {
 // Policy is edited in place so that its class designates another controller.  All events go through the real
 // handlers and lbc.sync.  It returns whether the Policy and the VirtualServer could be set up (the caller reads
 // the rendered VirtualServer file before and after from its manager).
-func (v *VerifCtl) PolicyProbe(step int) error {
+func (v *VerifCtl) PolicyProbe(step int, shape int) error {
 	nsi := v.nsi("pp")
 	pol := func(class string, gen int64) *conf_v1.Policy {
 		return &conf_v1.Policy{
@@ -632,11 +684,23 @@ func (v *VerifCtl) PolicyProbe(step int) error {
 		}
 		createPolicyHandlers(v.lbc).AddFunc(p)
 		drain()
+		// shape: where the VirtualServer references the Policy: 0 the spec; 1 the spec and a route; 2 two routes; 3 one route
+		ref := []conf_v1.PolicyReference{{Name: "pol"}}
 		vs := &conf_v1.VirtualServer{
 			ObjectMeta: meta_v1.ObjectMeta{Namespace: "pp", Name: "cafe", UID: "uid-pp-cafe", Generation: 1},
-			Spec: conf_v1.VirtualServerSpec{IngressClass: "nginx", Host: "pp.example.com", Policies: []conf_v1.PolicyReference{{Name: "pol"}},
+			Spec: conf_v1.VirtualServerSpec{IngressClass: "nginx", Host: "pp.example.com",
 				Upstreams: []conf_v1.Upstream{{Name: "u1", Service: "s1", Port: 80}},
-				Routes:    []conf_v1.Route{{Path: "/", Action: &conf_v1.Action{Pass: "u1"}}}},
+				Routes: []conf_v1.Route{{Path: "/", Action: &conf_v1.Action{Pass: "u1"}}, {Path: "/r2", Action: &conf_v1.Action{Pass: "u1"}}}},
+		}
+		switch shape % 4 {
+		case 0:
+			vs.Spec.Policies = ref
+		case 1:
+			vs.Spec.Policies, vs.Spec.Routes[1].Policies = ref, []conf_v1.PolicyReference{{Name: "pol", Namespace: "pp"}}
+		case 2:
+			vs.Spec.Routes[0].Policies, vs.Spec.Routes[1].Policies = ref, ref
+		case 3:
+			vs.Spec.Routes[1].Policies = ref
 		}
 		if err := nsi.virtualServerLister.Add(vs); err != nil {
 			return err
